@@ -24,15 +24,21 @@ Definition zseq (n : nat) : list Z := map Z.of_nat (seq 0 n).
 
 Definition flat_gauge (g : gauge) : list Z :=
   map (amount_of (g_coins g)) (zseq NR) ++ map (amount_of (g_dist g)) (zseq NR) ++ [g_filled g].
-Definition flat_set (r : refs) : list Z := let l := refs_all r in Z.of_nat (length l) :: l.
+(* canonical form: the status sets are compared as sets (sorted ids), not in store iteration order *)
+Fixpoint ins_z (x : Z) (s : list Z) : list Z :=
+  match s with [] => [x] | y :: r => if x <=? y then x :: s else y :: ins_z x r end.
+Definition sort_z (l : list Z) : list Z := fold_right ins_z [] l.
+Definition flat_set (r : refs) : list Z := let l := sort_z (refs_all r) in Z.of_nat (length l) :: l.
 Definition snapshot (s : state) : list Z :=
   flat_map flat_gauge (s_gauges s) ++ flat_set (s_up s) ++ flat_set (s_act s) ++ flat_set (s_fin s)
   ++ map (s_bank s MODULE) (zseq NR).
 
 Definition flat_lock (l : lock) : list Z :=
   [l_id l; l_owner l; l_amt l; l_dur l; b2z (l_unl l); receiver l].
+(* canonical form: the locks of a denomination by lock id (the lock table is kept in id order) *)
 Definition lock_listing (s : state) : list Z :=
-  flat_map (fun d => let ls := locks_longer (s_locks s) d 0 in Z.of_nat (length ls) :: flat_map flat_lock ls) (zseq NL).
+  flat_map (fun d => let ls := filter (fun l => (l_denom l =? d) && (0 <=? l_dur l)) (s_locks s) in
+                     Z.of_nat (length ls) :: flat_map flat_lock ls) (zseq NL).
 
 Definition tval_z (t : tval) : Z := match t with TNoRoute => -1 | TErr => -2 | TVal m => m end.
 
